@@ -39,10 +39,22 @@ def tokenize(text: str):
     return toks
 
 
+KEYWORDS = {"_", "and", "annotation", "as", "attr", "class", "const", "enum", "false", "from", "fun", "import", "in", "internal",
+            "literal", "not", "null", "or", "out", "package", "pipeline", "private", "schema", "static", "segment", "sub", "this",
+            "true", "union", "unknown", "val", "where", "yield"}
+
+
 class P:
-    def __init__(self, toks):
+    def __init__(self, toks, strict=False):
         self.t = toks
         self.i = 0
+        self.strict = strict
+        if strict:
+            for k, v in toks:
+                if k == "bad":
+                    raise ParseError(f"illegal character {v!r}")
+                if k == "id" and not v.isascii():
+                    raise ParseError(f"non-ASCII identifier {v!r}")
 
     def peek(self, o=0):
         j = self.i + o
@@ -66,9 +78,13 @@ class P:
     def ident(self):
         k, v = self.peek()
         if k == "id":
+            if self.strict and v in KEYWORDS:
+                raise ParseError(f"keyword {v!r} used as an identifier without back-quotes")
             self.i += 1
             return v
         if k == "bq":
+            if self.strict and not v[1:-1].replace("_", "a").isalnum():
+                raise ParseError(f"illegal back-quoted identifier {v!r}")
             self.i += 1
             return v[1:-1]
         raise ParseError(f"expected identifier at token {self.i}: {self.peek()}")
@@ -299,10 +315,10 @@ class P:
                 "file_annotations": [a[0] for a in anns]}
 
 
-def parse(text: str):
+def parse(text: str, strict: bool = False):
     """returns (module dict | None, error | None)"""
     try:
-        return P(tokenize(text)).module(), None
+        return P(tokenize(text), strict).module(), None
     except ParseError as e:
         return None, str(e)
     except RecursionError:
